@@ -727,3 +727,20 @@ FZ1 = "factorize_1d"
 add("F1", "break", FACT, FZ1, "    if not isinstance(values, pd.Series):\n        values = pd.Series(values)\n", "    if isinstance(values, pd.Index) and values.is_unique:\n        return (np.arange(len(values)), values)\n    if not isinstance(values, pd.Series):\n        values = pd.Series(values)\n", name="F1 unique-index shortcut numbers the rows, nulls included")
 add("F1", "break", FACT, FZ1, "codes, uniques = pd.factorize(values, use_na_sentinel=True)", "uniques, codes = np.unique(np.asarray(values), return_inverse=True)", name="F1 np.unique route has no null sentinel")
 add("F1", "keep", FACT, FZ1, "codes, uniques = pd.factorize(values, use_na_sentinel=True)", "factorized = pd.factorize(values, use_na_sentinel=True)\n        codes, uniques = factorized", name="F1 factorize result in a local")
+
+# --------------------------------------------------------------------------------------------- A10 / A11 / A12 (facade)
+VTG = "DataFrameGroupBy._values_to_group"
+FBK = "DataFrameGroupBy._from_by_keys"
+add("A10", "break", API, VTG, "return pd.DataFrame({col: self._obj[col] for col in self.value_columns}, copy=False)", "return pd.DataFrame({col: self._obj[col] for col in self.value_columns}, copy=False).select_dtypes(include='number')", name="A10 value columns narrowed by dtype")
+add("A10", "break", API, VTG, "for col in self.value_columns}", "for col in self.value_columns if self._obj[col].notna().any()}", name="A10 all-null columns dropped")
+add("A10", "break", API, VTG, "for col in self.value_columns}", "for col in self._obj.columns}", name="A10 every column of the object")
+add("A10", "keep", API, VTG, "return pd.DataFrame({col: self._obj[col] for col in self.value_columns}, copy=False)", "columns = {col: self._obj[col] for col in self.value_columns}\n        return pd.DataFrame(columns, copy=False)", name="A10 dict in a local")
+add("A11", "break", API, FBK, _m("                        if isinstance(obj.index, pd.MultiIndex):\n                            level_idx = obj.index.names.index(key)\n                            grouping_keys.append(obj.index.get_level_values(level_idx))\n                        else:\n                            grouping_keys.append(obj.index)\n"), _m("                        deferred_levels.append(key)\n"), name="A11 index-level names resolved after the loop",
+    also=((API, FBK, _m("    grouper = GroupBy(grouping_keys)\n"), _m("    for lv in deferred_levels:\n        grouping_keys.append(obj.index.get_level_values(lv))\n    grouper = GroupBy(grouping_keys)\n")),
+          (API, FBK, _m("    grouping_keys = []\n"), _m("    grouping_keys = []\n    deferred_levels = []\n"))))
+add("A11", "break", API, FBK, _m("            elif callable(key):\n                grouping_keys.append(obj.index.map(key))\n"), _m("            elif callable(key):\n                grouping_keys.insert(0, obj.index.map(key))\n                grouping_keys.append(obj.index.map(key))\n"), name="A11 callable key added twice")
+add("A11", "break", API, FBK, _m("    grouper = GroupBy(grouping_keys)\n"), _m("    grouping_keys.reverse()\n    grouper = GroupBy(grouping_keys)\n"), name="A11 key list reversed")
+add("A11", "keep", API, FBK, _m("            elif callable(key):\n                grouping_keys.append(obj.index.map(key))\n"), _m("            elif callable(key):\n                mapped = obj.index.map(key)\n                grouping_keys.append(mapped)\n"), name="A11 mapped key in a local")
+add("A12", "break", API, "BaseGroupBy.cumcount", "return self._grouper.cumcount()", "return pd.Series(self._grouper.cumcount(), index=self._obj.index)", name="A12 cumcount re-aligned by label")
+add("A12", "break", API, "BaseGroupBy.cumcount", "return self._grouper.cumcount()", "counts = self._grouper.cumcount()\n        return pd.Series(counts, index=self._obj.index, name=None)", name="A12 through a local")
+add("A12", "keep", API, "BaseGroupBy.cumcount", "return self._grouper.cumcount()", "return pd.Series(self._grouper.cumcount().to_numpy(), index=self._obj.index)", name="A12 relabelled by position")
